@@ -7,6 +7,7 @@ thread_local! {
     static READS: Cell<u64> = const { Cell::new(0) };
     static FIRST_READ: Cell<Option<u64>> = const { Cell::new(None) };
     static ELAPSED_READS: Cell<u64> = const { Cell::new(0) };
+    static READ_COST: Cell<u64> = const { Cell::new(0) };
 }
 
 /// Arms the virtual clock of this thread at `nanos`.
@@ -25,6 +26,11 @@ pub fn advance(nanos: u64) {
             c.set(Some(v + nanos))
         }
     });
+}
+/// Every `Instant::elapsed()` read through the shim advances the virtual clock by `nanos`
+/// afterwards (0 = off): time passes in loops that make no callback at all.
+pub fn set_read_cost(nanos: u64) {
+    READ_COST.with(|c| c.set(nanos));
 }
 /// Current virtual time, if armed.
 pub fn now_nanos() -> Option<u64> {
@@ -69,7 +75,9 @@ impl Instant {
         match self {
             Instant::Real(i) => i.elapsed(),
             Instant::Virtual(v0) => {
-                Duration::from_nanos(now_nanos().unwrap_or(*v0).saturating_sub(*v0))
+                let d = Duration::from_nanos(now_nanos().unwrap_or(*v0).saturating_sub(*v0));
+                advance(READ_COST.with(|c| c.get()));
+                d
             }
         }
     }
